@@ -195,7 +195,10 @@ func MannWhitneyUTest(x1, x2 []float64, alt LocationHypothesis) (*MannWhitneyUTe
 			p = dist.CDF(U1)
 
 		case LocationGreater:
-			p = 1 - dist.CDF(U1-1)
+			// P(U >= U1) is 1 - P(U <= U1 - step), where the
+			// distribution moves in steps of 1/2 when there
+			// are ties.
+			p = 1 - dist.CDF(U1-dist.Step())
 		}
 	} else {
 		// Use normal approximation (with tie and continuity
